@@ -180,6 +180,11 @@ def run(prog, tier):
                "under src >= dest, never set back), VIEW-SOURCES (each view reads the field whose role the "
                "mutator defines), INIT-SHAPE (n+1 fresh rows).  Decides the invariant clause of the property, "
                "not the behaviour of networkx on foreign graphs.")
+    analyse(R, prog)
+    return R
+
+
+def analyse(R, prog):
     m = prog.module(MOD)
     classes = {name: prog.cls(MOD, name) for name in SPEC}
     base_bip = prog.cls(MOD, "BaseBipartiteGraph")
@@ -266,7 +271,7 @@ def run(prog, tier):
                 check_generic_mutator(R, prog, cname, spec, fi, ev)
         check_views(R, prog, cname, spec, ci, roles)
     check_misc(R, prog)
-    return R
+    check_bipartite_import(R, prog)
 
 
 # ------------------------------------------------------------------------------------------
@@ -927,3 +932,74 @@ def check_misc(R, prog):
         R.ok("VIEW-SOURCES", "CompleteBipartiteGraph.has_edge == (1<=u<=L and 1<=v<=R)", fi.key)
     else:
         R.bad(F("VIEW-SOURCES", fi, "CompleteBipartiteGraph.has_edge", "every in-range pair (and only those) is an edge"))
+
+
+def check_bipartite_import(R, prog):
+    """IMPORT-ORIENT: BipartiteGraph.from_networkx gives add_edge a left index first and a right index second, whatever
+    order networkx reports the endpoints in.  Each index is `table[side][node]`; the side of both arguments must be decided (0 then 1)
+    by the tests on the path to the call."""
+    fi = prog.func(MOD, "BipartiteGraph.from_networkx")
+    cfg = CFG(fi.node)
+    stmts = stmts_in(fi.node)
+    side_of = {}           # index variable -> side expression text
+    for s in stmts:
+        if isinstance(s, ast.Assign) and len(s.targets) == 1:
+            tg, vl = s.targets[0], s.value
+            pairs = list(zip(tg.elts, vl.elts)) if isinstance(tg, ast.Tuple) and isinstance(vl, ast.Tuple) and len(tg.elts) == len(vl.elts) \
+                else [(tg, vl)]
+            for t, v in pairs:
+                if isinstance(t, ast.Name) and isinstance(v, ast.Subscript) and isinstance(v.value, ast.Subscript):
+                    side_of[t.id] = src(v.value.slice)
+    calls = [(s, s.value) for s in stmts if isinstance(s, ast.Expr) and isinstance(s.value, ast.Call)
+             and method_name(s.value) == "add_edge" and len(s.value.args) == 2]
+    if not calls or not side_of:
+        raise AnalysisError("BipartiteGraph.from_networkx: no add_edge(index[side][u], index[side][v]) construction found (anchor vanished)")
+    ifs = [s for s in stmts if isinstance(s, ast.If)]
+    n = 0
+    for st, c in calls:
+        n += 1
+        node = cfg.node_of(st)
+        eq, ne = {}, set()      # side expr -> constant ; unordered pairs known different
+        for i in ifs:
+            t = i.test
+            if not (isinstance(t, ast.Compare) and len(t.ops) == 1 and isinstance(t.ops[0], (ast.Eq, ast.NotEq))):
+                continue
+            tn = cfg.node_of(i)
+            if tn is None or node is None:
+                continue
+            a, b = src(t.left), src(t.comparators[0])
+            for label in (True, False):
+                if not cfg.edge_dominates(tn, label, node):
+                    continue
+                holds = (label is True) == isinstance(t.ops[0], ast.Eq)      # does `a == b` hold on this edge?
+                kb = const(t.comparators[0])
+                if kb in (0, 1) and not isinstance(kb, bool):
+                    eq[a] = kb if holds else 1 - kb
+                elif holds is False:
+                    ne.add(frozenset((a, b)))
+        changed = True
+        while changed:
+            changed = False
+            for pr in ne:
+                if len(pr) == 2:
+                    x, y = tuple(pr)
+                    for p, q in ((x, y), (y, x)):
+                        if p in eq and q not in eq:
+                            eq[q] = 1 - eq[p]
+                            changed = True
+        sides = []
+        for a in c.args:
+            sx = side_of.get(a.id) if isinstance(a, ast.Name) else None
+            if sx is None and isinstance(a, ast.Subscript) and isinstance(a.value, ast.Subscript):
+                sx = src(a.value.slice)
+            sides.append(int(sx) if sx in ("0", "1") else (eq.get(sx) if sx is not None else None))
+        inst = "from_networkx: %s with sides %s" % (src(c), sides)
+        if sides == [0, 1]:
+            R.ok("IMPORT-ORIENT", inst + " (left index first, right index second on this path)", fi.key)
+        else:
+            R.bad(F("IMPORT-ORIENT", fi, "from_networkx add_edge orientation",
+                    "`%s`: add_edge takes (left vertex, right vertex), but on the paths reaching this call the first argument is on side %s "
+                    "and the second on side %s (None = not decided by any test): an edge that networkx reports as (right node, left node) "
+                    "is inserted transposed, and formulas built from the graph describe another graph"
+                    % (src(c), sides[0], sides[1]), c))
+    R.floor("IMPORT-ORIENT", n, 1)
